@@ -65,7 +65,19 @@ def run(ctx):
     tr = cc.cover_sample(rng, tr, 9000 if th else 700,
                          [lambda s: (s["shape"], s["pair"], s["faults"][0]["class"]), lambda s: (s["faults"][0]["class"], s["faults"][0]["kind"]),
                           lambda s: (s["shape"], s["faults"][0]["class"] == "blob_head", s["faults"][0]["n"])])
-    res = bres + e.run(scripts + mx + mx2 + extra + tr, "minimal")
+    # a registry that decides mounts per request: declines the k-th mount it sees, or the mount of one blob,
+    # and grants the others - every mount it would grant has to be asked for
+    mp = []
+    for sh in e.shapes:
+        blobs = [n["name"] for n in e.cat[sh]["nodes"] if n["kind"] == "blob"]
+        for k in ([1, 2, 3] if th else [1, 2]):
+            for conc in (1, 3, 16):
+                mp.append(e.scn(sh, "samereg", "mountpolicy", mount=1, mount_decline_k=[k], conc=conc,
+                                mode=rng.choice(["random", "fifo", "ungated"]), tag0=rng.choice(["none", "stale"])))
+        for b in (blobs if th else rng.sample(blobs, min(2, len(blobs)))):
+            mp.append(e.scn(sh, "samereg", "mountpolicy", mount=1, mount_decline_n=[b], conc=rng.choice([1, 3, 16]),
+                            mode=rng.choice(["random", "fifo", "ungated"])))
+    res = bres + e.run(scripts + mx + mx2 + extra + tr + mp, "minimal")
 
     acc, rej = e.validate(res, "C14", max_reports=40)
     e.check_stalls()
